@@ -462,7 +462,7 @@ printf("\n");
           {
             num = operands[0].value;
 
-            if (check_range(asm_context, "Address", num, 0, 0xfff) != 0)
+            if (check_range(asm_context, "Address", num, 0, 0x1ff) != 0)
             {
               return -1;
             }
